@@ -79,6 +79,8 @@ type FS struct {
 	NoGates  bool
 	Counters map[string]int
 	users    map[string]bool // ids of simulation tasks that act as the user
+	// Delay, when set, is the simulated time an operation of the program under test takes (a slow disk)
+	Delay func(kind, path string) time.Duration
 }
 
 type sub struct {
@@ -189,6 +191,11 @@ func (f *FS) step(kind, p string, n int, mutating bool) (error, int) {
 			actor = "user"
 		}
 		f.mu.Unlock()
+	}
+	if f.Delay != nil && actor == "sut" {
+		if d := f.Delay(kind, norm(p)); d > 0 {
+			simrt.Sleep(d)
+		}
 	}
 	f.mu.Lock()
 	op := Op{Seq: len(f.Ops) + 1, Kind: kind, Path: norm(p), N: n, Mutating: mutating, Actor: actor}
